@@ -829,7 +829,8 @@ theorem replaceAround_undo_aligned (S : Schema) (doc doc' : Node) (f t gf gt : N
     between complete children of the node it sits in (both ends at child boundaries of the same node, not
     inside text) and the children before and after it are not two texts with equal marks (`gapClean`,
     evaluated on the old slice `doc.slice(f, t)`), the fit guard of `replaceAround_undo` holds by itself —
-    `insert_into`'s `can_replace` check then sees exactly the child sequence of a node of the valid `doc`. -/
+    `insert_into` then builds and validates exactly the child sequence of a node of the valid `doc`.
+    (A special case of `replaceAround_undo_aligned` since the repair of `insert_into`; kept for its callers.) -/
 theorem replaceAround_undo_structural (S : Schema) (doc doc' : Node) (f t gf gt : Nat) (sl : Slice)
     (ins : Nat) (b : Bool) (inv : Step)
     (hd : S.checkNode doc = true) (hn : fnorm doc.kids = true) (hsn : fnorm sl.content = true)
@@ -3733,7 +3734,7 @@ theorem insertInline_residual (S : Schema) (hdet : PM.C11.detB S = true) (hfill 
 /-- what is still asked of the step a **deletion** records once *all* of its payload and shape conjuncts are
     theorems (C11 `delete_emits_payloadValid`, `delete_emits_wf`, `delete_around_is_move`): normal form of the
     slice and pair-alignment; for a `ReplaceAroundStep` also the fit guard `gapFitsBack` of the inverse (finding
-    C04-around-text-gap is its complement) -/
+    C04-around-text-gap was its complement; derivable since the repair of `insert_into`: `gapFitsBack_of_applied`) -/
 def DeleteResidualAround (S : Schema) (tr tr1 : Tr) : Prop :=
   HistAll (fun s d d' =>
     match s with
